@@ -370,4 +370,29 @@ ITEMS = [
                    '''r is Ok && !old(self).pending_space_after_colon && old(self).at_line_start && old(self).after_dash_depth is None
                         ==> old(self).indent_step * r->Ok_0 >= old(self).indent_step * old(self).depth''')],
          canaries=['C12:a_variant_name_in_value_position_starts_on_its_own_line_indented_deeper_than_the_key_it_belongs_to']),
+    # ---- empty block collections (C20: no option may turn data into other data) ----
+    dict(src=SR, path='impl SerializeSeq for SeqSer/fn end', id='SeqSer::end#empty', props=['C20', 'C01'],
+         fragment=r'if self\.ser\.empty_as_braces \{.*?\} else \{\s*self\.ser\.newline\(\)\?;\s*\}', fragment_flags='S',
+         wrapper="fn seq_end_empty_fragment<'a>(ser: &mut YamlSerializer<'a>, depth: usize) -> Result<(), SerError> { {FRAG} Ok(()) }",
+         pre_rewrites=[(r'\bself\.ser\.', 'ser.', None, 'R9'), (r'\bself\.depth\b', 'depth', None, 'R9')],
+         requires=[('indent_fits', 'old(ser).indent_step * depth <= usize::MAX')],
+         proofs=[dict(at='start', text='reveal_strlit("[]"); reveal_strlit(" ");')],
+         ensures=[('C20:an_empty_sequence_is_written_as_brackets_when_the_option_asks_for_it',
+                   "r is Ok && old(ser).empty_as_braces ==> ends_with3(final(ser).out.text(), '[', ']', '\\n')"),
+                  ('C20:no_option_makes_an_empty_sequence_indistinguishable_from_null', "r is Ok ==> ends_with3(final(ser).out.text(), '[', ']', '\\n')", ['C20'])],
+         canaries=['C20:an_empty_sequence_is_written_as_brackets_when_the_option_asks_for_it']),
+    dict(src=SR, path='impl SerializeMap for MapSer/fn end', id='MapSer::end#empty', props=['C20', 'C01'],
+         fragment=r'if self\.ser\.empty_as_braces \{.*?\} else \{\s*self\.ser\.newline\(\)\?;\s*\}', fragment_flags='S',
+         wrapper="fn map_end_empty_fragment<'a>(ser: &mut YamlSerializer<'a>, depth: usize, align_after_dash: bool) -> Result<(), SerError> { {FRAG} Ok(()) }",
+         pre_rewrites=[(r'\bself\.ser\.', 'ser.', None, 'R9'), (r'\bself\.depth\b', 'depth', None, 'R9'), (r'\bself\.align_after_dash\b', 'align_after_dash', None, 'R9')],
+         loop_rewrites=[(1, 'range')],
+         requires=[('indent_fits', 'old(ser).indent_step * depth <= usize::MAX')],
+         proofs=[dict(at='start', text='reveal_strlit("{}"); reveal_strlit(" "); reveal_strlit("  ");'),
+                 dict(at='start', text='''let st = ser.indent_step as int; let d0 = depth as int; let b0 = if d0 >= 1 { d0 - 1 } else { 0int };
+                      assert(st * b0 <= st * d0) by(nonlinear_arith) requires 0 <= b0 <= d0, st >= 0;''')],
+         ensures=[('C20:an_empty_mapping_is_written_as_braces_when_the_option_asks_for_it',
+                   "r is Ok && old(ser).empty_as_braces ==> ends_with3(final(ser).out.text(), '{', '}', '\\n')"),
+                  ('C20:no_option_makes_an_empty_mapping_indistinguishable_from_null', "r is Ok ==> ends_with3(final(ser).out.text(), '{', '}', '\\n')", ['C20'])],
+         loops={1: dict(invariant=[('frame', '__i1 <= __n1 && ser.empty_as_braces == old(ser).empty_as_braces')], decreases='__n1 - __i1')},
+         canaries=['C20:an_empty_mapping_is_written_as_braces_when_the_option_asks_for_it']),
 ]
